@@ -107,4 +107,26 @@ PROPS["C18"] = {
     "level_note": "That MakeCookieFromOptions is the only constructor reaching http.SetCookie is checked by the flows' monitor, not by a theorem.",
 }
 
+PROPS["C15"] = {
+    "drivers": [MAIN],
+    "rule": "(1) isAllowedRoute on 7 rule sets (anchored/unanchored, method-qualified, negated, legacy regex, '=' inside the regex) x "
+            "reverse-proxy on/off x 6 methods x 27 paths (encoded, dot segments, unparsable) x queries embedding rule-like fragments x "
+            "X-Forwarded-Uri values (well-formed, with query, unparsable); (2) NetSet.Has on 10 network sets (overlapping, nested, mixed "
+            "families, mapped, /0) x addresses at and next to the first/last address of every network plus every address of a reduced "
+            "universe, each in dotted, IPv4-mapped and hex-mapped notation; ParseIPNet's host-bit rule; (3) isTrustedIP for every "
+            "real-client-IP header x header values x remote addresses, reverse-proxy on/off; (4) preflight on/off x methods x CORS "
+            "headers; non-trivial = exempted by implementation or reference, or carrying a query/forwarded URI/header value",
+    "assumptions": ["Go regexp, url.ParseRequestURI and net.ParseIP are modelled as functions; in the correspondence they are tables "
+                    "computed with the standard library for exactly the strings the model asks about",
+                    "strings.TrimSpace modelled for ASCII white space"],
+    "trusted_base": ["reference deciders in the driver: regexp on the standard-library path only; net.IPNet.Contains"],
+    "level_text": "c15_route (exempt iff some rule's method and path-regex match, for every matcher, rule list and request), c15_path_only "
+                  "(query/fragment/other headers irrelevant), c15_netset (for every network list and every 128-bit address, membership in "
+                  "the built set iff membership in a network of the same family), c15_allowed_request (preflight only for OPTIONS and only "
+                  "when enabled), c15_trusted_remote_only / c15_trusted_header_only are proved on the Gallina model of isAllowedRoute / "
+                  "GetRequestPath / NetSet / GetClientIP; the model and independent reference deciders are compared with the Go functions "
+                  "on every run.",
+    "level_note": "regex matching itself (Go regexp) and IP text parsing (net.ParseIP) are modelled library behaviour.",
+}
+
 NOT_APPLICABLE = {}
